@@ -11,6 +11,8 @@ import TonVerif.Proofs.VmStack
 import TonVerif.Proofs.VmStackInv
 import TonVerif.Proofs.SrcArith2
 import TonVerif.Generated.VmStackTests
+import TonVerif.Proofs.SrcVmStack
+import TonVerif.Proofs.SrcVmStackDe
 namespace TonVerif.C17
 open TonVerif TonVerif.Model TonVerif.Model.Vm TonVerif.Spec.Vm TonVerif.Proofs.Vm
 
@@ -219,5 +221,104 @@ example : Generated.tinyIntFits (-(2 ^ 63)) = true ∧ Generated.tinyIntFits (-(
     Generated.cellSliceBitsBad 3 2 = true ∧ Generated.cellSliceBitsBad 2 2 = false := by decide
 
 end Src
+
+/-! ### the WHOLE serialize / deserialize methods regenerated from tlb/vm_stack.py (Generated/VmStackSrc.lean)
+
+`Generated.VmStackSrc.*` are re-translated from the current source text on every run (harness/translate/pytlb.py, vmsrc.py).
+A serialiser returns the cell TOGETHER WITH the state of its argument after the call (a `pop()` on the caller's list shows up
+there); `fuel` bounds the nesting of recursive calls (Python has no such bound): `sV / sT / sL / sK / sC` are explicit sufficient
+budgets, linear in the size of the value. -/
+section SrcWhole
+open TonVerif.Generated.VmStackSrc TonVerif.Proofs.SrcVm TonVerif.Proofs.SrcVmDe
+
+/-- `c17_src_serialize`: for EVERY stack / value / tuple / continuation / control data and every sufficient budget the
+    regenerated `VmStack.serialize`, `VmStackValue.serialize`, `VmTuple.serialize`, `VmTupleRef.serialize`, `VmStackList.serialize`,
+    `VmCont.serialize`, `VmControlData.serialize`, `VmCellSlice.serialize` raise exactly when the hand model's `serStack`,
+    `serVal`, … (about which `c17_schema`, `c17_roundtrip` are proved) do, and return the same cell. -/
+theorem c17_src_serialize (mk : Bits → List R → Option R) :
+    (∀ (vs : List (Val R)) fuel, sL vs + 1 ≤ fuel → (VmStack_serialize mk fuel vs).map (·.1) = serStack mk vs) ∧
+    (∀ (v : Val R) fuel, sV v ≤ fuel → (VmStackValue_serialize mk fuel v).map (·.1) = serVal mk v) ∧
+    (∀ (vs : List (Val R)) fuel, sT vs ≤ fuel → (VmTuple_serialize mk fuel vs).map (·.1) = serTuple mk vs) ∧
+    (∀ (vs : List (Val R)) fuel, sT vs + 1 ≤ fuel → (VmTupleRef_serialize mk fuel vs).map (·.1) = serTupleRef mk vs) ∧
+    (∀ (vs : List (Val R)) fuel, sL vs ≤ fuel → (VmStackList_serialize mk fuel vs).map (·.1) = serStackList mk vs) ∧
+    (∀ (k : Cont R) fuel, sK k ≤ fuel → VmCont_serialize mk fuel k = serCont mk k) ∧
+    (∀ (cd : Ctl R) fuel, sC cd ≤ fuel → VmControlData_serialize mk fuel cd = serCtl mk cd) ∧
+    (∀ bits (refs : List R), VmCellSlice_serialize mk (bits, refs) = serCellSlice mk bits refs) := by
+  refine ⟨fun vs fuel h => ?_, fun v fuel h => ?_, fun vs fuel h => ?_, fun vs fuel h => ?_, fun vs fuel h => ?_,
+    src_serCont, src_serCtl, TonVerif.Proofs.SrcVm.cellSlice_eq⟩
+  · rw [src_serStack vs fuel h]; simp [Function.comp_def]
+  · rw [src_serVal v fuel h]; simp [Function.comp_def]
+  · rw [src_serTuple vs fuel h]; simp [Function.comp_def]
+  · rw [src_serTupleRef vs fuel h]; simp [Function.comp_def]
+  · rw [src_serStackList vs fuel h]; simp [Function.comp_def]
+
+/-- `c17_src_pure`: serialising does not consume: whenever the regenerated `VmStack.serialize(data)` /
+    `VmStackValue.serialize(value)` / `VmTuple.serialize(values)` / `VmTupleRef.serialize(values)` returns, the state of the
+    caller's argument after the call (second component; a `pop()` on it would show up here) IS the argument.  For every stack,
+    value, tuple nesting, continuation.  (`VmStackList.serialize` empties the list it is given, by design: `VmStack.serialize`
+    hands it a copy.) -/
+theorem c17_src_pure (mk : Bits → List R → Option R) :
+    (∀ (vs : List (Val R)) fuel r, sL vs + 1 ≤ fuel → VmStack_serialize mk fuel vs = some r → r.2 = vs) ∧
+    (∀ (v : Val R) fuel r, sV v ≤ fuel → VmStackValue_serialize mk fuel v = some r → r.2 = v) ∧
+    (∀ (vs : List (Val R)) fuel r, sT vs ≤ fuel → VmTuple_serialize mk fuel vs = some r → r.2 = vs) ∧
+    (∀ (vs : List (Val R)) fuel r, sT vs + 1 ≤ fuel → VmTupleRef_serialize mk fuel vs = some r → r.2 = vs) ∧
+    (∀ (vs : List (Val R)) fuel r, sL vs ≤ fuel → VmStackList_serialize mk fuel vs = some r → r.2 = []) := by
+  refine ⟨fun vs fuel r h e => ?_, fun v fuel r h e => ?_, fun vs fuel r h e => ?_, fun vs fuel r h e => ?_, fun vs fuel r h e => ?_⟩
+  · rw [src_serStack vs fuel h] at e; obtain ⟨b, _, rfl⟩ := Option.map_eq_some_iff.mp e; rfl
+  · rw [src_serVal v fuel h] at e; obtain ⟨b, _, rfl⟩ := Option.map_eq_some_iff.mp e; rfl
+  · rw [src_serTuple vs fuel h] at e; obtain ⟨b, _, rfl⟩ := Option.map_eq_some_iff.mp e; rfl
+  · rw [src_serTupleRef vs fuel h] at e; obtain ⟨b, _, rfl⟩ := Option.map_eq_some_iff.mp e; rfl
+  · rw [src_serStackList vs fuel h] at e; obtain ⟨b, _, rfl⟩ := Option.map_eq_some_iff.mp e; rfl
+
+/-- hence the regenerated `VmStack.serialize`, called again on what the first call left, returns the same cell -/
+theorem c17_src_twice (mk : Bits → List R → Option R) (vs : List (Val R)) (fuel : Nat) (h : sL vs + 1 ≤ fuel)
+    (r : Built R × List (Val R)) (e : VmStack_serialize mk fuel vs = some r) : VmStack_serialize mk fuel r.2 = some r := by
+  rw [(c17_src_pure mk).1 vs fuel r h e]; exact e
+
+/-- `c17_src_deserialize`: for EVERY slice and every budget the regenerated `VmStack.deserialize`, `VmStackValue.deserialize`,
+    `VmTuple.deserialize`, `VmTupleRef.deserialize`, `VmStackList.deserialize`, `VmControlData.deserialize`,
+    `VmCellSlice.deserialize` ARE the hand model's parsers `De.*` (same raise / return decision, same value, same slice state
+    afterwards), and `VmCont.deserialize` is `De.cont` wherever a constructor tag matches and returns `None` otherwise. -/
+theorem c17_src_deserialize (view : R → Bits × List R) (ord : R → Bool) (fuel : Nat) :
+    VmStack_deserialize view ord fuel = De.stack view ord fuel ∧
+    VmStackValue_deserialize view ord fuel = De.val view ord fuel ∧
+    (∀ n : Nat, VmTuple_deserialize view ord fuel (n : Int) = De.tuple view ord fuel n) ∧
+    (∀ n : Nat, VmTupleRef_deserialize view ord fuel (n : Int) = De.tupleRef view ord fuel n) ∧
+    (∀ n : Nat, VmStackList_deserialize view ord fuel (n : Int) = De.stackList view ord fuel n) ∧
+    VmCont_deserialize view ord fuel = contOpt view ord fuel ∧
+    VmControlData_deserialize view ord fuel = De.ctl view ord fuel ∧
+    VmCellSlice_deserialize view ord = De.cellSlice view :=
+  ⟨src_stack_eq fuel, (src_de_all fuel).1, (src_de_all fuel).2.1, (src_de_all fuel).2.2.1, (src_de_all fuel).2.2.2.1,
+    (src_de_all fuel).2.2.2.2.1, (src_de_all fuel).2.2.2.2.2, TonVerif.Proofs.SrcVmDe.cellSlice_eq⟩
+
+/-- `c17_src_roundtrip`: the round trip for the REGENERATED code: whenever the regenerated `VmStack.serialize(vs)` returns a
+    cell, the regenerated `VmStack.deserialize` of that cell's content returns `vs` (equal values, same order, every supported
+    kind, any nesting) and leaves nothing unread. -/
+theorem c17_src_roundtrip (L : Laws mk view ord) (vs : List (Val R)) (fuel fuel' : Nat) (h : sL vs + 1 ≤ fuel)
+    (hf : fuelL vs ≤ fuel') (r : Built R × List (Val R)) (e : VmStack_serialize mk fuel vs = some r) :
+    VmStack_deserialize view ord fuel' ⟨(view r.1.cell).1, (view r.1.cell).2⟩ = (⟨[], []⟩, some vs) := by
+  rw [src_serStack vs fuel h] at e
+  obtain ⟨b, hb, rfl⟩ := Option.map_eq_some_iff.mp e
+  have hc : serialize mk vs = some b.cell := by simp [serialize, hb]
+  rw [src_stack_eq]
+  exact c17_parser_accepts_schema vs b.cell (c17_schema L vs b.cell hc) fuel' hf
+
+/-- non-vacuity: the regenerated serialiser returns on the two sample stacks (every value kind, every continuation kind,
+    tuples of length 0/1/2/4) with budget 200, the returned state is the argument, and the regenerated parser reads the cell back -/
+example : (VmStack_serialize mkTree 200 sampleVals).isSome = true ∧ (VmStack_serialize mkTree 200 sampleConts).isSome = true := by
+  constructor <;> decide +kernel
+
+example : ((VmStack_serialize mkTree 200 sampleVals).bind fun r =>
+    (VmStack_deserialize viewTree ordTree 200 ⟨(viewTree r.1.cell).1, (viewTree r.1.cell).2⟩).2).isSome = true := by
+  decide +kernel
+
+/-- the budget hypotheses are met by concrete numbers -/
+example : sL sampleVals + 1 ≤ 200 ∧ sL sampleConts + 1 ≤ 200 := by decide
+
+/-- a parser-side example: a continuation value whose tag matches no constructor parses to `None` (null), as the code does -/
+example : ((VmStackValue_deserialize viewTree ordTree 5 ⟨[false,false,false,false,false,true,true,false, true,false,true,true], []⟩).2.map
+    fun v => match v with | Val.null => true | _ => false) = some true := by decide +kernel
+
+end SrcWhole
 
 end TonVerif.C17
